@@ -887,6 +887,55 @@ def r14_reference_density(idx, r):
         raise AnalysisError(f"only {n} materials found that use the base density")
 
 
+def r15_relabel_redistribute_dedupe(idx, r):
+    """(a) nuclideBases.changeLabel keeps the label index in step: the nuclide is entered under its NEW label (the parameter, or the attribute
+    after it was set).  (b) MOX.setMassFracPuO2 splits the uranium + plutonium share between the two elements: the total it redistributes is
+    exactly the sum of the two element sums it divides by - a total obtained as a complement (1 - oxygen) would also hand out the share of
+    the nuclides carried separately (AM241), and the fractions would no longer sum to one.  (c) Element.append refuses a duplicate by
+    membership of the nuclide itself; pseudo-nuclides of one element share A = 0 and state 0 (DUMP1/DUMP2, the lumped fission products) and
+    would be dropped by any coarser key."""
+    from ..exprnf import ExprEval
+    f = idx.func("armi.nucDirectory.nuclideBases.changeLabel")
+    nb_, new = f.params()[:2]
+    sts = [s_ for s_ in iter_stores(f.node) if s_.kind == "subscript" and norm(s_.node.value) == "byLabel"]
+    lab = [s_ for s_ in iter_stores(f.node) if s_.chain == f"{nb_}.label"]
+    if len(sts) != 1 or len(lab) != 1:
+        raise AnchorMissing("changeLabel: label assignment and byLabel store")
+    key = norm(sts[0].node.slice)
+    okk = key == new or (key == f"{nb_}.label" and lab[0].stmt.lineno < sts[0].stmt.lineno)
+    r.require(okk and norm(sts[0].value) == nb_ and norm(lab[0].value) == new, "changeLabel:entered-under-the-new-label", f, node=sts[0].stmt,
+              msg=f"`{norm(sts[0].stmt)}` does not enter the nuclide under its new label: after a library names NP237 `NEP7`, byLabel['NEP7'] is missing while the nuclide says its label is NEP7")
+    g = idx.method("armi.materials.mox.MOX", "setMassFracPuO2")
+    env = single_assign_env(g.node)
+    if "total" not in env:
+        raise AnchorMissing("MOX.setMassFracPuO2: total")
+    sums = [n_ for n_, v in env.items() if isinstance(v, ast.Call) and dotted(v.func) == "sum"]
+    divs = {norm(x.right) for c in iter_calls(g.node) if dotted(c.func) == "self.setMassFrac" for x in ast.walk(c) if isinstance(x, ast.BinOp) and isinstance(x.op, ast.Div)}
+    E = ExprEval(env={n_: Poly.atom(n_) for n_ in sums}, opaque=False)
+    try:
+        tot = E.ev(env["total"])
+        want = None
+        for d in sorted(divs):
+            want = Poly.atom(d) if want is None else want + Poly.atom(d)
+        okt = want is not None and tot == want
+    except AnalysisError:
+        okt = False
+    r.require(okt, "MOX.setMassFracPuO2:total-is-the-sum-of-the-redistributed-elements", g,
+              msg=f"`total = {norm(env['total'])}` is not the sum of the element sums the loops divide by ({sorted(divs)}): what is handed out differs from what those nuclides held, and the composition no longer sums to one")
+    h = idx.method("armi.nucDirectory.elements.Element", "append")
+    nuc = h.params()[1]
+    early = [x for x in h.node.body if isinstance(x, ast.If) and any(isinstance(y, ast.Return) for y in x.body)]
+    if len(early) != 1:
+        raise AnchorMissing("Element.append: the duplicate test")
+    r.require(norm(early[0].test) == f"{nuc} in self.nuclides", "Element.append:duplicate-means-the-same-nuclide", h, node=early[0],
+              msg=f"a nuclide is refused when `{norm(early[0].test)[:80]}`: distinct nuclides that agree on that key (the pseudo-nuclides of one element all have A = 0, state 0) are dropped from their element")
+
+
+def r16_pairing(idx, r):
+    from ..pairing import pairing_rule
+    pairing_rule(idx, r, ["armi.nucDirectory", "armi.materials"], 80)
+
+
 def run(idx, chk):
     chk.explanation = (
         "C19: nuclides.dat, elements.dat, burn-chain.yaml and mcc-nuclides.yaml are parsed as data and linted exhaustively (unique (Z,A,S), N=A-Z, "
@@ -922,3 +971,7 @@ def run(idx, chk):
                  necessary="every default composition sums to one however often the defaults are (re-)applied")
     chk.run_rule("R19.14", "a material whose density()/pseudoDensity() ends in the base implementation assigns the reference density it divides", lambda r: r14_reference_density(idx, r), floor=20,
                  necessary="every library material has finite positive density")
+    chk.run_rule("R19.15", "a re-labelled nuclide is indexed under the new label; MOX redistributes exactly the U+Pu total; Element.append refuses only the same nuclide", lambda r: r15_relabel_redistribute_dedupe(idx, r), floor=3,
+                 necessary="each lookup returns the nuclide that carries the identifier; compositions sum to one; each nuclide belongs to its element")
+    chk.run_rule("R19.16", "arguments stand at the parameter they are named after; sibling calls forward the same pass-through parameters", lambda r: r16_pairing(idx, r), floor=1,
+                 necessary="Tk and Tc are handed to the parameter of their unit")
